@@ -48,4 +48,19 @@ theorem machine_sources_match :
       ∧ ["vm.Run", "vm.New", "vm.NewEmpty", "vm.VirtualMachine.Clone"].all
           (machineFresh Risor.Generated.C09.machineSources 6) = true := by decide
 
+/-- who writes a machine's `halt` flag and where its address goes is what was reviewed: the machine's own
+    methods, with the only store of 1 in the goroutine `start` parks on the run's context (the hypothesis
+    `perRun` of `isolated_results_shared_contexts`; a flag handed to a process-wide table of watches
+    shows up as an `escapes:` row) -/
+theorem halt_writes_match :
+    Risor.Generated.C09.haltWrites = haltWriteRows
+      ∧ Risor.Generated.C09.haltWrites.all haltRowOK = true := by decide
+
+/-- the root package and the module packages `DefaultGlobals` builds the standard library from have no
+    package-level variable that is ever written: nowhere to keep a module between two calls (the
+    hypothesis `fresh` of `config_isolated`; a cache of built modules shows up here) -/
+theorem lib_vars_match :
+    Risor.Generated.C09.libVars = libVarRows
+      ∧ Risor.Generated.C09.libVars.all (fun r => r.2.2.isEmpty) = true := by decide
+
 end Risor.C09
